@@ -87,4 +87,68 @@ theorem zip_decode {V : Type} (showNum : V → Bytes) (readNum : Bytes → V) : 
     simp only [List.map_cons, expect, List.zipWith_cons_cons, ih]
     cases v <;> simp [Val.item, Item.isStr, Item.payload, decode, Val.back, Except.map]
 
+/-- Memory.deftype_ on a table of 26 entries: the letters of the range get the sigil, the others keep theirs -/
+theorem defType_spec (tab : DefTab) (sg a b i : Nat) (hlen : tab.length = 26) (hb : b < 26) :
+    (defType tab sg a b).length = 26 ∧
+    (defType tab sg a b).getD i 33 = if a ≤ i ∧ i ≤ b then sg else tab.getD i 33 := by
+  unfold defType
+  by_cases h : b < a
+  · simp [h, hlen]; intro h1 h2; omega
+  · simp only [h, if_false]
+    constructor
+    · simp [hlen]; omega
+    · simp only [List.getD_eq_getElem?_getD, List.getElem?_append, List.length_append, List.length_take,
+        List.length_replicate, hlen]
+      by_cases h1 : i < a
+      · have : i < min a 26 + (b - a + 1) := by omega
+        have h3 : i < min a 26 := by omega
+        simp [this, h3, h1]
+        intro h4; omega
+      · by_cases h2 : i ≤ b
+        · have : i < min a 26 + (b - a + 1) := by omega
+          have h3 : ¬ i < min a 26 := by omega
+          have h4 : i - min a 26 < b - a + 1 := by omega
+          have h5 : a ≤ i := by omega
+          simp [this, h3, h4, h5, h2]
+        · have : ¬ i < min a 26 + (b - a + 1) := by omega
+          have h5 : ¬ (a ≤ i ∧ i ≤ b) := by omega
+          simp [this, h5, List.getElem?_drop]
+          congr 2; omega
+
+theorem completeName_snoc (t : DefTab) (c l : Nat) (mid : Bytes) :
+    completeName t (c :: (mid ++ [l])) =
+      if isSigil l = true then c :: (mid ++ [l]) else c :: (mid ++ [l]) ++ [t.getD (upperByte c - 65) 33] := by
+  have hl : (c :: (mid ++ [l])).getLast? = some l := by
+    have : c :: (mid ++ [l]) = (c :: mid) ++ [l] := rfl
+    rw [this, List.getLast?_concat]
+  unfold completeName
+  split
+  · next c' tl l' h1 h2 =>
+    rw [hl] at h2
+    injection h1 with hc ht
+    injection h2 with h2
+    subst hc; subst h2; rfl
+  · next h => exact absurd hl (h c _ l rfl)
+
+theorem varIsStr_snoc (t : DefTab) (c l : Nat) (mid : Bytes) :
+    varIsStr t (c :: (mid ++ [l])) =
+      if isSigil l = true then decide (l = 36) else decide (t.getD (upperByte c - 65) 33 = 36) := by
+  have hl : (c :: (mid ++ [l])).getLast? = some l := by
+    have : c :: (mid ++ [l]) = (c :: mid) ++ [l] := rfl
+    rw [this, List.getLast?_concat]
+  unfold varIsStr
+  rw [completeName_snoc]
+  split
+  · rw [hl]; simp
+  · rw [List.getLast?_concat]; simp
+theorem itemOfVar_isStr (tab : DefTab) (name payload : Bytes) :
+    (itemOfVar tab name payload).isStr = varIsStr tab name := by
+  unfold itemOfVar
+  cases varIsStr tab name <;> simp [Item.isStr]
+
+theorem roundtrip_core_words (soft : Bool) (ss : List (List Item)) (hne : ∀ st ∈ ss, st ≠ [])
+    (hok : ∀ st ∈ ss, ∀ it ∈ st, itemOk it) (hlf : soft = false → ∀ st ∈ ss, ∀ it ∈ st, 10 ∉ it.bytes) :
+    (readEntries (ss.flatten.map Item.isStr) (openIn soft (writtenFile ss))).1 = expect ss.flatten := by
+  rw [writtenFile_eq]; exact (roundtrip_core soft ss hne hok hlf).1
+
 end PcbV.C24
